@@ -29,6 +29,7 @@ type graphScen struct {
 	Failing []string    `json:"failing"`
 	Reps    int         `json:"reps"`
 	Second  bool        `json:"second"` // run a second time on the warm cache (skips appear)
+	Vars    []string    `json:"vars"`   // global variables declared above the tasks (their names may coincide with task names)
 }
 
 type graphOut struct {
@@ -94,6 +95,9 @@ func graphMain(args []string) error {
 
 func graphSpokfile(s *graphScen) string {
 	var b strings.Builder
+	for _, v := range s.Vars {
+		fmt.Fprintf(&b, "%s := \"%s.out\"\n", v, v)
+	}
 	for _, t := range s.Tasks {
 		for c := 0; c < t.Count; c++ {
 			var args []string
